@@ -206,6 +206,46 @@ def run(ctx):
         ctx.nontriv((name, cmkey, "-c"))
         rels.append(relations.relate("SameUpToLabels", ra, text_a, rb, text_b,
                                      meta={"input": name + " -c", "desc": d, "pdb": text_b, "orig": text_a}))
+    # the same relabellings under a titrate-only list that is relabelled along (negative numbers, insertion codes, other
+    # chain names): the listed residues are the same residues before and after
+    def tlist(lines_, pick):
+        out_, seen_ = [], []
+        for ln in lines_:
+            if C.is_atom(ln) and ln[:4] == "ATOM":
+                rid = C.resid(ln)
+                if rid not in seen_:
+                    seen_.append(rid)
+        return seen_
+    tdone = set()
+    for name, lines, d in work:
+        if name not in dict(structures(ctx)[:1]) or d["mode"] not in ("none", "codeA", "twinsA") or (d["mode"], d["sa"], d["sb"]) in tdone:
+            continue
+        if not (d["sa"] in (-40, -1000, 0) and d["sb"] in (-40, -11, 100)):
+            continue
+        new = apply_descriptor(lines, d)
+        if new is None:
+            continue
+        tdone.add((d["mode"], d["sa"], d["sb"]))
+        ra_ids, rb_ids = tlist(lines, None), tlist(new, None)
+        if len(ra_ids) != len(rb_ids):
+            continue
+        ion = [k for k, rid in enumerate(ra_ids) if any(C.is_atom(ln) and C.resid(ln) == rid and ln[17:20] in
+                                                         ("ASP", "GLU", "HIS", "TYR", "LYS", "ARG") for ln in lines)]
+        sel = ion[::2][:6]
+        ent = lambda rid: f"{'_' if rid[0] == ' ' else rid[0]}:{rid[1]}{rid[2].strip()}"  # noqa
+        la, lb = ",".join(ent(ra_ids[k]) for k in sel), ",".join(ent(rb_ids[k]) for k in sel)
+        text_a, text_b = C.join(lines), C.join(new)
+        ra = runner.run(text_a, ["-q", "-i", la], write=False)
+        rb = runner.run(text_b, ["-q", "-i", lb], write=False)
+        ctx.count()
+        if ra.exc is not None or rb.exc is not None:
+            if (ra.exc is None) != (rb.exc is None):
+                ctx.violation(f"relabel:exception:titrate-only:{name}", f"-i {la} -> {ra.exc!r}; relabelled -i {lb} -> {rb.exc!r}",
+                              {"pdb": text_b, "orig": text_a, "desc": d, "optargs": ["-i", lb]})
+            continue
+        ctx.nontriv((name, json.dumps(d, sort_keys=True), "-i"))
+        rels.append(relations.relate("SameUpToLabels", ra, text_a, rb, text_b,
+                                     meta={"input": name + " -i", "desc": d, "pdb": text_b, "orig": text_a}))
     viol = relations.validate(ctx, rels, ["SameConfs", "SameUpToLabels", "RowOrderSame"], "relabelled vs baseline")
     reported = set()
     pending = []
